@@ -178,9 +178,10 @@ func (w *World) settle() {
 		if time.Since(p.goneAt) < 5*time.Minute {
 			continue
 		}
-		if seen := w.rtSeen[r.ip.PodUID]; !seen.del.IsZero() && seen.del.Equal(seen.ini) {
-			// "initial" and "deleted" carry the same stamp: which one is final follows map order in
-			// the implementation, every pass draws again; no bound can be stated (11.2 observations)
+		if seen := w.rtSeen[r.ip.PodUID]; seen.tied || (!seen.untiedAt.IsZero() && time.Since(seen.untiedAt) < time.Duration(w.cfg.HeartbeatS)*time.Second+2*time.Minute) {
+			// "initial" and "deleted" carry (or carried until a moment ago) the same stamp: which one
+			// is final follows map order in the implementation, every pass draws again; no bound
+			// can be stated until a later stamp ends the tie and a pass has run (11.2 observations)
 			w.run.Probe("reclaim-liveness-not-judged-equal-stamps")
 			continue
 		}
@@ -343,6 +344,12 @@ func (w *World) fixedPoint() {
 	close(w.stopCtl(w.ctlGen - 1))
 	node := w.truthNode()
 	all := flatten(node)
+	// trimming takes one step per collection pass (and a pass needs a reconcile): a pool that has
+	// only been shrinking lately is still converging, the property sets no deadline
+	if w.cloud.shrinkingOnly(2*time.Duration(max(w.cfg.HeartbeatS, w.cfg.GCPeriodS))*time.Second + time.Minute) {
+		w.run.Probe("fixed-point-not-judged-still-shrinking")
+		return
+	}
 	tag := w.knownCycleCause(node)
 	// every eligible pod has its address(es)
 	for _, p := range w.pods {
@@ -603,6 +610,21 @@ func (w *World) undisposable(node *networkv1beta1.Node) int {
 
 // capacityLeft tells whether the node could still serve pod p (a usable interface with room, or a free slot).
 func (w *World) capacityLeft(node *networkv1beta1.Node, p *podState) bool {
+	// a pod that reports an address the record no longer has can only be re-adopted onto that
+	// address (C02) and therefore cannot be served at all: it is not an eligible pod
+	if pod := w.truthPod(p.spec.Name); pod != nil {
+		all := flatten(node)
+		r4, r6 := reported(pod)
+		for _, ip := range []string{r4, r6} {
+			if ip == "" {
+				continue
+			}
+			if _, ok := all[ip]; !ok {
+				w.run.Probe("pod-reports-address-the-record-lost")
+				return false
+			}
+		}
+	}
 	total, trunk, rdma, secondary := w.attachedOrPending()
 	wantHP := p.spec.RDMA && w.cfg.ERDMA
 	for _, ni := range node.Status.NetworkInterfaces {
